@@ -383,7 +383,8 @@ class CookieJar(AbstractCookieJar):
                 except ValueError:
                     cookie["max-age"] = ""
 
-            elif expires := cookie["expires"]:
+            # (a malformed Max-Age is ignored, it does not hide Expires)
+            if expire_time is None and (expires := cookie["expires"]):
                 expire_time = self._parse_date(expires)
                 if expire_time is None:
                     cookie["expires"] = ""
